@@ -26,6 +26,7 @@ import (
 	"fmt"
 	"math/rand"
 	"os"
+	"regexp"
 	"sort"
 	"strings"
 	"unicode/utf8"
@@ -708,6 +709,8 @@ func (c *c13ctx) judge(k c13case, err error) {
 			key = "C13-parse-error-at-next-token"
 		case k.Hint == "regexp":
 			key = "C13-regexp-error-after-pattern"
+		case c13NotInSpacing(k.Src) && strings.Contains(fe.Message, `Operator("not")`):
+			key = "C13-notin-spacing" // finding C11-notin-spacing seen from C13: the error points at `not`
 		}
 		fail(key, "reported position is not the position of the injected fault ("+k.Fault+")", want, fmt.Sprintf("line %d column %d: %s", fe.Line, fe.Column, fe.Message))
 	} else {
@@ -1669,4 +1672,23 @@ func runC13() {
 	rep.Extra["coq_cases_lexer"] = len(lexCases)
 	rep.Extra["coq_cases_parser"] = len(parseCases)
 	rep.write()
+}
+
+// c13NotInSpacing: the source holds `not in` laid out in a way the lexer does not recognise as ONE operator (finding
+// C11-notin-spacing): the words separated by anything but U+0020 spaces, or `in` followed by something other than a
+// space or the end of the input.  The parser then reports "unexpected token Operator("not")" at `not`.
+var c13NotInRe = regexp.MustCompile(`(^|[^A-Za-z0-9_])not([ \t\r\n]+)in($|[^A-Za-z0-9_])`)
+
+func c13NotInSpacing(src string) bool {
+	for _, m := range c13NotInRe.FindAllStringSubmatchIndex(src, -1) {
+		sep := src[m[4]:m[5]]
+		after := ""
+		if m[6] < m[7] {
+			after = src[m[6]:m[7]]
+		}
+		if strings.Trim(sep, " ") != "" || (after != "" && after != " ") {
+			return true
+		}
+	}
+	return false
 }
